@@ -7,6 +7,11 @@
      Insert   = second critical section (lock; plans.get(k) again; evict; push_back; insert; unlock)
    The Mutex makes each critical section atomic, so an execution of any number of threads is a
    sequence (schedule) of such steps; every interleaving is some schedule.
+   A fourth step, Abort, models a request that dies between its critical sections (a panic in the
+   unlocked part: SourceBlockEncodingPlan::generate refuses symbol counts above 56403, or the
+   thread is torn down): the thread returns nothing and goes back to Idle, the cache is untouched.
+   No modelled step can fail while the lock is held (the two critical sections only look up, pop,
+   push and insert), which is why lock poisoning does not appear in the model.
    Plan generation is an arbitrary function [gen] of the symbol count (the only assumption).
    DEFINITIONS ONLY (proofs: Proofs/CacheProofs.v). *)
 From Coq Require Import NArith List Bool Arith.
@@ -69,10 +74,11 @@ Arguments threads {plan} _.
 Inductive step : Type :=
 | Lookup (t : nat) (k : N)
 | Generate (t : nat)
-| Insert (t : nat).
+| Insert (t : nat)
+| Abort (t : nat).
 
 Definition step_thread (s : step) : nat :=
-  match s with Lookup t _ => t | Generate t => t | Insert t => t end.
+  match s with Lookup t _ => t | Generate t => t | Insert t => t | Abort t => t end.
 
 (* the value returned by get_or_generate_source_block_encoding_plan(k) on thread t *)
 Inductive event (plan : Type) : Type :=
@@ -139,12 +145,20 @@ Section Cache.
     | _ => (st, [])
     end.
 
+  (* the request of thread t dies outside the critical sections: nothing is returned, nothing is cached *)
+  Definition do_abort (t : nat) (st : sysstate plan) : sysstate plan * list (event plan) :=
+    match get_pc t (threads st) with
+    | Idle => (st, [])
+    | _ => (mkSys (plans st) (order st) (set_pc t Idle (threads st)), [])
+    end.
+
   (* a step that is not enabled for the thread's pc leaves the state unchanged, no event *)
   Definition exec (s : step) (st : sysstate plan) : sysstate plan * list (event plan) :=
     match s with
     | Lookup t k => do_lookup t k st
     | Generate t => do_generate t st
     | Insert t => do_insert t st
+    | Abort t => do_abort t st
     end.
 
   Fixpoint run (sched : list step) (st : sysstate plan) : sysstate plan * list (event plan) :=
@@ -164,13 +178,14 @@ Arguments do_lookup {plan} t k st.
 Arguments do_generate {plan} gen t st.
 Arguments evict {plan} capacity pl ord.
 Arguments do_insert {plan} capacity t st.
+Arguments do_abort {plan} t st.
 Arguments exec {plan} gen capacity s st.
 Arguments run {plan} gen capacity sched st.
 
 (* ---- entry point for differential testing against the real cache ----
    plan := N, gen := id (a plan is identified with the symbol count it was generated for, which is
    what verif_encoder::plan_symbol_count observes).
-   schedule element = (thread id, step kind 0=Lookup 1=Generate 2=Insert, key (Lookup only));
+   schedule element = (thread id, step kind 0=Lookup 1=Generate 2=Insert 3=Abort, key (Lookup only));
    any other kind is a no-op.
    Output, after EACH step:
      [ret_flag; returned plan (= its symbol count) or 0; length order] ++ order
@@ -189,6 +204,7 @@ Definition decode_step (e : N * N * N) : option step :=
   | 0 => Some (Lookup (N.to_nat t) k)
   | 1 => Some (Generate (N.to_nat t))
   | 2 => Some (Insert (N.to_nat t))
+  | 3 => Some (Abort (N.to_nat t))
   | _ => None
   end.
 
